@@ -108,7 +108,7 @@ type caps struct{ txids, snaps, derived int }
 
 // postRun applies the C01/C02/snapshot oracles to one main database after the
 // stress child has exited.
-func postRun(res *vf.Result, mf MainFinal, scratch string, cp caps, resets []float64) {
+func postRun(res *vf.Result, mf MainFinal, scratch string, cp caps, resets []float64, root string) {
 	// A run in which ResetLocalState was called on this database is a
 	// different witness class (TXIDs can be re-issued with other content).
 	sfx, note := "", ""
@@ -116,6 +116,7 @@ func postRun(res *vf.Result, mf MainFinal, scratch string, cp caps, resets []flo
 		sfx = ":after-ResetLocalState"
 		note = fmt.Sprintf(" [ResetLocalState returned nil on this database at t=%.1fs]", resets[0])
 	}
+	note += root
 	ctx := context.Background()
 	rep := litestream.NewReplicaWithClient(nil, file.NewReplicaClient(mf.Rep))
 	led := &ledger{hashes: mf.Hashes, scratch: scratch}
@@ -136,7 +137,7 @@ func postRun(res *vf.Result, mf MainFinal, scratch string, cp caps, resets []flo
 		res.Count("ltx_files_verified", 1)
 		if _, err := oracle.DecodeLTX(f.Path); err != nil {
 			corruptListed[f.String()] = true
-			res.Violate("ltx-corrupt-on-replica", "%s: %s on the replica fails verification: %v", tag, f, err)
+			res.Violate("ltx-corrupt-on-replica", "%s: %s on the replica fails verification: %v%s", tag, f, err, root)
 		}
 	}
 	arch := listArchive(mf.Arch)
@@ -188,7 +189,7 @@ func postRun(res *vf.Result, mf MainFinal, scratch string, cp caps, resets []flo
 			lf, err := oracle.DecodeLTX(v.Path)
 			res.Evals++
 			if err != nil {
-				res.Violate("ltx-corrupt-on-replica", "%s: L0/%d as published on the replica fails verification: %v", tag, n, err)
+				res.Violate("ltx-corrupt-on-replica", "%s: L0/%d as published on the replica fails verification: %v%s", tag, n, err, root)
 				continue
 			}
 			if last != nil && oracle.EqualPages(lf, last.Pages) != nil {
